@@ -1,5 +1,6 @@
 import Rq.Model.Io
 import Rq.Model.Oracle
+import Rq.Model.Kernels
 /-! Driver handlers for the codec engine (E3). I/O glue around the model functions. -/
 namespace Rq.DriverE3
 open Rq Rq.Io
@@ -165,3 +166,27 @@ def handle (w : List String) : Option String :=
   | _ => none
 
 end Rq.DriverE3
+
+namespace Rq.DriverK
+open Rq Rq.Io
+
+def pathOf (s : String) : Option Path :=
+  match s with
+  | "p" => some .portable | "s" => some .ssse3 | "a" => some .avx2 | "x" => some .avx512
+  | _ => none
+
+def showO : Option (List Nat) → String
+  | none => "err"
+  | some l => hexList l
+
+def handle (w : List String) : Option String :=
+  match w with
+  | ["krn", "add", p, hd, hs] => (pathOf p).map fun p => showO (addAssign p (unhexList hd) (unhexList hs))
+  | ["krn", "mul", p, c, hd] => (pathOf p).map fun p => hexList (mulAssign p (nat c) (unhexList hd))
+  | ["krn", "fma", p, c, hd, hs] => (pathOf p).map fun p => showO (fma p (nat c) (unhexList hd) (unhexList hs))
+  | ["krn", "fmabin", p, c, hd, len, ws] =>
+      (pathOf p).map fun p => showO (fmaBin p (nat c) (unhexList hd) ⟨natList ws, nat len⟩)
+  | ["krn", "tooct", len, ws] => some (hexList (BinVec.toOctets ⟨natList ws, nat len⟩))
+  | _ => none
+
+end Rq.DriverK
